@@ -21,6 +21,12 @@ package main
 // the handler method itself failing) x every request kind that obtains an object (STAT, LSTAT, FSTAT, READLINK with and
 // without ReadlinkFileLister, OPENDIR, OPEN r / w / rw) x 5 session ends; whatever its methods returned, every object
 // is closed exactly once, told TransferError exactly when its handle was still open, its context cancelled.
+// Families E / O of that part (c11_ends.go): THE WAYS A SESSION ENDS as a dimension of its own — handle population (0..n
+// handles of each kind open, some closed before) x {EOF at / inside a frame, the transport's reader failing with 12
+// error values at / inside a frame, the application's RequestServer.Close() (idle, handles open, requests in flight, a
+// handler running, twice, concurrently, with / after a client EOF, after Serve returned), the transport's writer
+// failing, malformed packets}, on the request server (E) and on the os-backed server over a scratch tree (O; "Close"
+// is the Close of the transport given to NewServer); Serve's return value and the TransferError value per end in the histogram.
 //
 // Option dimensions (c11Configs; every value is a field of ssCfg, so replays carry it):
 //   - os-backed: ReadOnly() (refusals leave handle table, descriptors and tree alone; the tree must end as
